@@ -32,3 +32,22 @@ def timeout_of(seconds: Optional[int]) -> int:
 
 def timeout_ok(seconds: Optional[int]) -> int:
     return 60 if seconds is None else seconds
+
+
+class Settings:
+    def __init__(self, timeout_in_seconds: Optional[int]):
+        self._timeout = timeout_in_seconds
+
+    @property
+    def timeout_in_seconds(self) -> Optional[int]:
+        return self._timeout
+
+    def timeout(self) -> Optional[int]:
+        return self._timeout
+
+
+def uses_settings(settings: Settings) -> int:
+    a = settings.timeout_in_seconds or 60  # EXPECT truth
+    b = 1 if settings.timeout() else 2  # EXPECT truth
+    c = 3 if settings.timeout_in_seconds is None else 4
+    return a + b + c
